@@ -604,10 +604,12 @@ def _work(args):
                 tr = shipped_trace(tid, path, workdir, dense)
             elif kind == 'hist':
                 tid, hist, trunc = it
-                tr = common.guarded(run_history, 600, hist, workdir, tid, trunc)
+                with common.caller_state(tid):
+                    tr = common.guarded(run_history, 600, hist, workdir, tid, trunc)
             else:
                 tid, seed, max_recs, trunc = it
-                tr = common.guarded(random_file_trace, 600, seed, tid, workdir, max_recs, trunc)
+                with common.caller_state(tid):
+                    tr = common.guarded(random_file_trace, 600, seed, tid, workdir, max_recs, trunc)
             out.write(json.dumps(tr) + '\n')
     return part_path
 
